@@ -121,6 +121,7 @@ pub const RULES: &[(&str, &[&str])] = &[
     ("idle.before_source_callback", &["C13"]),
     ("idle.same_dispatch_as_parent", &["C13"]),
     ("idle.not_run", &["C13"]),
+    ("idle.in_failed_dispatch", &["C13", "C15"]),
     ("idle.outside_dispatch", &["C13"]),
     ("idle.leaked", &["C13", "C06"]),
     ("wait.count", &["C12", "C14"]),
